@@ -25,6 +25,7 @@ def _m1():
         ('state', 's0', 'up', -1), ('state', 's1', 'down', -1),
         ('bl', 1), ('bl', 0),
         ('cell-', 'rack:0'), ('cell+', 'rack:0'),
+        ('blk', 's0', 1), ('blk', 's0', 0),
         ('tick', 40), ('noop',), ('restart',),
     )
     return cfg
@@ -42,12 +43,46 @@ def _m4():
     return cfg
 
 
+def _m2():
+    """Two partitions: an allocations event moves a placed instance to the
+    tenant of the other partition (the scheduler takes it off its server at
+    the start of the next cycle, outside the placement loop)."""
+    cfg = mastercfg.m2()
+    cfg['monitors'] = [mastermon.mon_c09]
+    cfg['allow_nocycle'] = False
+    cfg['events'] = mastercfg.ev(
+        ('app+', 'pl'), ('app+', 't1'), ('app+', 'hi'), ('app-', 0),
+        ('alloc', 1), ('alloc', 2), ('alloc', 0),
+        ('srv', 's0', 1), ('srv', 's0', 0), ('srv', 's1', 1),
+        ('pres-', 's0'), ('pres+', 's0', 0), ('noop',), ('restart',),
+    )
+    return cfg
+
+
+def _late():
+    """Late watch delivery (deviation 'L'): a children list captured when the
+    change happened is processed after later changes reached ZooKeeper."""
+    cfg = mastercfg.m1()
+    cfg['monitors'] = [mastermon.mon_c09]
+    cfg['allow_late'] = True
+    cfg['allow_nocycle'] = False
+    cfg['events'] = mastercfg.ev(
+        ('app+', 'sm'), ('app+', 'id'), ('app-', 0), ('app-', 1),
+        ('prio', 0, 100), ('prio', 1, 1), ('pres-', 's0'), ('pres+', 's0', 0),
+        ('idg', 'g', 1), ('noop',), ('restart',),
+    )
+    return cfg
+
+
 def configs(ctx):
     if ctx.quick:
-        return [('M1', _m1(), 3, 1, Spec, 2.0), ('M4', _m4(), 5, 0, Spec, 1.0)]
+        return [('M1', _m1(), 3, 1, Spec, 2.0), ('M4', _m4(), 5, 0, Spec, 1.0),
+                ('M2', _m2(), 3, 0, Spec, 1.0),
+                ('M1-lateq', _late(), 3, 1, Spec, 1.0)]
     late = _m1()
     late['allow_late'] = True
     return [('M1', _m1(), 5, 1, Spec, 2.0), ('M4', _m4(), 8, 1, Spec, 1.0),
+            ('M2', _m2(), 5, 1, Spec, 1.0),
             ('M1-late', late, 4, 1, Spec, 1.0)]
 
 
